@@ -518,6 +518,25 @@ def run_corrupt(ctx, idx):
                 # is such a cue may not.
                 cnt_corrupted = task == "compress" and any(
                     nm.startswith("event_count_value") for nm in names)
+                if task == "compress" and not cnt_corrupted:
+                    # a file whose features all have the same length (e.g. its only feature
+                    # was shortened) disagrees with the stored event count only: the same
+                    # documented rectification applies
+                    import h5py as _h5
+                    with _h5.File(p, "r") as _h:
+                        _ev = _h["events"] if "events" in _h else {}
+                        _lens = set()
+                        for _k in _ev:
+                            _o = _ev[_k]
+                            if isinstance(_o, _h5.Dataset):
+                                _lens.add(_o.shape[0] if _o.ndim else 0)
+                            elif _k == "contour":
+                                _lens.add(len(_o))
+                            elif _k == "trace":
+                                _lens |= {_o[_t].shape[0] for _t in _o}
+                    if len(_lens) == 1:
+                        cnt_corrupted = True
+                        ctx.count("copy_invariance_count_only_inconsistency")
 
                 def canon(vs):
                     vs = [v for v in vs if not re.search(drop, v)]
